@@ -382,10 +382,13 @@ class Cli:
         rc, err, calls = run_traced(wd, umask, nnvg_args(rc_, out, self.ns, self.prog), "r")
         ev = tree_events(calls, str(wd), out)
         files, dirs = snapshot(out)
+        # generation order = order of the truncating opens; restricted to what the run really left behind, so that a tree
+        # that writes through other paths (scratch file + rename) breaks the tie (operation traces) but not the harness
         order = []
         for e in ev:
-            if e[0] == "open" and e[1] not in order:
+            if e[0] == "open" and e[1] not in order and e[1] in files:
                 order.append(e[1])
+        order += [p for p in sorted(files) if p not in order]
         ref = {"status": classify_rc(rc, err), "files": files, "order": order, "ops": canon_ops(ev), "stderr": err[-400:]}
         shutil.rmtree(wd, ignore_errors=True)
         with self.lock:
